@@ -144,6 +144,13 @@ Theorem model_meets_spec_into : forall x c d n,
 Proof. exact model_meets_spec_into_lemma. Qed.
 Print Assumptions model_meets_spec_into.
 
+(* concurrent Inject (scheduled PINJ cases): the sequential model - every thread on its own carrier - meets the per-thread clause *)
+Theorem model_meets_spec_pinj : forall k cs,
+  Forall (fun c => length (c_tid c) = kTraceIdBytes /\ length (c_sid c) = kSpanIdBytes) cs ->
+  spec_pinj k cs (map ext_obs (map (roundtrip k) cs)) = [].
+Proof. exact spec_pinj_model. Qed.
+Print Assumptions model_meets_spec_pinj.
+
 (* on the wire format: for every parsable case line, the SPEC run on the model's output line reports nothing *)
 Theorem model_meets_spec : forall l, parse_case l <> None -> run_spec l (run_model l) = [].
 Proof. exact model_meets_spec_lemma. Qed.
